@@ -229,6 +229,9 @@ def restore_rule(repo: Repo, rep: Report, rid: str) -> None:
     rep.rule(rid, "save/restore pairing: the EOF probe puts the stream back where it was on the not-at-EOF path; the dynamic-union re-read rewinds "
                   "to the saved start before reading the extent")
     fi = repo.func("types/base.py", "_is_eof")
+    from ..folds import fold_is_eof
+
+    eof_fold = fold_is_eof(repo)
     g = CFG(fi.node)
     stream = fi.params[0]
     saves = [x for x in g.nodes if x.kind == "stmt" and isinstance(x.ast, ast.Assign) and norm(x.ast.value) == f"{stream}.tell()"]
@@ -243,8 +246,14 @@ def restore_rule(repo: Repo, rep: Report, rid: str) -> None:
               f"{fi.key}:restore", "position saved before the probe and restored before returning False",
               "the EOF probe consumes a byte on the not-at-EOF path (position not restored): every following element would start one byte late", fi.loc())
     tguard = [x for x in g.nodes if x.kind == "if" and norm(x.ast.test) in (f"{stream}.tell() == {pos}", f"{pos} == {stream}.tell()")]
-    rep.check(bool(ret_true) and bool(tguard) and all(g.must_pass(probes[0].id, r.id, {t.id for t in tguard}) for r in ret_true), rid, f"{fi.key}:eof-test",
-              "EOF is reported only when the probe did not move the stream", "EOF is reported without comparing the position after the probe with the saved one", fi.loc())
+    if eof_fold is not None:
+        bad = eof_fold["bad"]
+        rep.check(not bad, rid, f"{fi.key}:eof-test", f"folded over {eof_fold['cases']} (stream length, position) cases: True exactly at the end, position kept",
+                  f"_is_eof on a stream of (length, position) = {bad[0][:2] if bad else ''} returns {bad[0][2] if bad else ''} and leaves the stream at "
+                  f"{bad[0][3] if bad else ''}", fi.loc())
+    else:
+        rep.check(bool(ret_true) and bool(tguard) and all(g.must_pass(probes[0].id, r.id, {t.id for t in tguard}) for r in ret_true), rid, f"{fi.key}:eof-test",
+                  "EOF is reported only when the probe did not move the stream", "EOF is reported without comparing the position after the probe with the saved one", fi.loc())
     u = repo.func("types/structure.py", "UnionMetaType._read")
     g = CFG(u.node)
     s = u.node.args.args[1].arg
